@@ -431,6 +431,7 @@ func runC08(w *World, r *Report) {
 	phaseTables(w, r, "C08")
 	c08TypeMappingSiblings(w, r)
 	c08RepeatIsModelled(w, r, ctxs)
+	kindByRuleNotByText(w, r, "C08")
 	inlineObjectKeepsItsPacket(w, r, "C08") // "a MetaData-typed field versus the inlined type", names are not meanings: an inline object is its body
 	// "a key list versus its expanded pairs": every key, written alone or in a list, becomes a pair whose key is the text of its own
 	// token - a spelling rewritten on one of the two routes (leading zeros stripped for `01 : A` but not for `[01] : A`) makes the
